@@ -1,6 +1,8 @@
 /-
 What `addHandler` and the rebuild loop of `Remove` register, in closed form: the patterns
-`Spec.patsFrom roots onRoot`, in order, provided none of them is registered yet.
+`Spec.regFrom roots seen onRoot` (those of the wanted patterns `Spec.patsFrom` that no earlier service
+mapped), in order.  They are pairwise different and differ from every pattern an earlier service
+registered, so only a pattern the user registered through `Handle` can make a registration panic.
 -/
 import Restful.Model.Registry
 import Restful.Spec.Registry
@@ -166,12 +168,94 @@ theorem regPatterns_nodup (root : Str) : (Spec.regPatterns root).Nodup := by
         simp at this
       simp [this]
 
-/-- `addHandler` when the `alreadyMapped` scan finds nothing -/
-theorem addHandler_eq {all : List Svc} {s : Svc} (t : Mux.Table) (hm : alreadyMapped all s = false) :
-    addHandler all s t = match regList t (Spec.regPatterns s.root) with
+/-! ### `mapped` -/
+
+/-- the keys of `mapped` for services with these root paths -/
+def mappedAll (rs : List Str) : List Str := rs.flatMap mappedOf
+
+theorem mapped_eq (l : List Svc) : mapped l = mappedAll (roots l) := by
+  simp [mapped, mappedAll, roots, List.flatMap_map]
+
+theorem mappedAll_append (a b : List Str) : mappedAll (a ++ b) = mappedAll a ++ mappedAll b := by
+  simp [mappedAll]
+
+theorem mappedAll_cons (r : Str) (rs : List Str) : mappedAll (r :: rs) = mappedOf r ++ mappedAll rs := by
+  simp [mappedAll]
+
+theorem mappedAll_nil : mappedAll [] = [] := rfl
+
+theorem isRootPattern_false {root : Str} (h : Spec.isRootPattern root = false) :
+    fixedPrefixPath root ≠ ['/'] ∧ fixedPrefixPath root ≠ [] := by
+  simp only [Spec.isRootPattern, Bool.or_eq_false_iff, beq_eq_false_iff_ne, ne_eq] at h
+  exact h
+
+/-- a service that does not land on `/` wants exactly what it maps -/
+theorem regPatterns_eq_mappedOf {root : Str} (h : Spec.isRootPattern root = false) :
+    Spec.regPatterns root = mappedOf root := by
+  simp only [Spec.regPatterns, mappedOf, h, Bool.false_eq_true, if_false]
+
+/-- every service maps what it wants (a service on `/` maps `/`, too) -/
+theorem regPatterns_sub_mappedOf {root : Str} : ∀ p ∈ Spec.regPatterns root, p ∈ mappedOf root := by
+  intro p hp
+  cases h : Spec.isRootPattern root with
+  | false => rw [← regPatterns_eq_mappedOf h]; exact hp
+  | true =>
+    simp only [Spec.regPatterns, h, if_true, List.mem_singleton] at hp
+    subst hp
+    simp only [Spec.isRootPattern, Bool.or_eq_true, beq_iff_eq] at h
+    rcases h with h | h <;> simp [mappedOf, h, hasSuffix]
+
+/-- no service beside `/` wants or maps the pattern `/` -/
+theorem root_not_mem_mappedOf {root : Str} (h : Spec.isRootPattern root = false) : ['/'] ∉ mappedOf root := by
+  obtain ⟨h1, h2⟩ := isRootPattern_false h
+  have h3 : fixedPrefixPath root ++ ['/'] ≠ ['/'] := by
+    intro h0
+    apply h2
+    have := congrArg List.length h0
+    simp only [List.length_append, List.length_cons, List.length_nil] at this
+    exact List.eq_nil_of_length_eq_zero (by omega)
+  unfold mappedOf
+  simp only
+  split
+  · simp only [List.mem_singleton]; exact fun h0 => h1 h0.symm
+  · simp only [List.mem_cons, List.not_mem_nil, or_false, not_or]
+    exact ⟨fun h0 => h1 h0.symm, fun h0 => h3 h0.symm⟩
+
+/-! ### the patterns one `addHandler` registers -/
+
+theorem newPatterns_sub {seen : List Str} {root : Str} : ∀ p ∈ Spec.newPatterns seen root, p ∈ Spec.regPatterns root := by
+  intro p hp
+  unfold Spec.newPatterns at hp
+  split at hp
+  · rename_i h
+    simp only [List.mem_singleton] at hp
+    subst hp
+    simp [Spec.regPatterns, h]
+  · exact (List.mem_filter.mp hp).1
+
+theorem newPatterns_ne_nil {seen : List Str} {root : Str} : ∀ p ∈ Spec.newPatterns seen root, p ≠ [] :=
+  fun p hp => regPatterns_ne_nil p (newPatterns_sub p hp)
+
+theorem newPatterns_nodup (seen : List Str) (root : Str) : (Spec.newPatterns seen root).Nodup := by
+  unfold Spec.newPatterns
+  split
+  · simp
+  · exact (regPatterns_nodup root).filter _
+
+/-- a service beside `/` registers nothing an earlier service mapped -/
+theorem newPatterns_not_seen {seen : List Str} {root : Str} (h : Spec.isRootPattern root = false) :
+    ∀ p ∈ Spec.newPatterns seen root, p ∉ seen := by
+  intro p hp
+  simp only [Spec.newPatterns, h, Bool.false_eq_true, if_false, List.mem_filter, Bool.not_eq_true',
+    List.contains_eq_mem, decide_eq_false_iff_not] at hp
+  exact hp.2
+
+/-- container.go:117 `addHandler` in closed form -/
+theorem addHandler_eq (registered : List Svc) (s : Svc) (t : Mux.Table) :
+    addHandler registered s t = match regList t (Spec.newPatterns (mapped registered) s.root) with
       | .ok t' => .ok (t', Spec.isRootPattern s.root)
       | .error e => .error e := by
-  unfold addHandler Spec.regPatterns
+  unfold addHandler Spec.newPatterns Spec.regPatterns
   by_cases h1 : fixedPrefixPath s.root = ['/'] ∨ fixedPrefixPath s.root = []
   · have h2 : Spec.isRootPattern s.root = true := by
       rcases h1 with h | h <;> simp [Spec.isRootPattern, h]
@@ -184,21 +268,41 @@ theorem addHandler_eq {all : List Svc} {s : Svc} (t : Mux.Table) (hm : alreadyMa
         exfalso; apply h1
         simp only [Spec.isRootPattern, Bool.or_eq_true, beq_iff_eq] at hx
         exact hx
-    simp only [h1, h2, hm, if_false, Bool.false_eq_true]
+    simp only [h1, h2, if_false, Bool.false_eq_true]
+    simp only [List.contains_eq_mem]
     by_cases h3 : hasSuffix ['/'] (fixedPrefixPath s.root) = true
-    · simp only [h3, if_true, regList]
-      cases reg t (fixedPrefixPath s.root) .dispatch <;> rfl
-    · simp only [h3, if_false, regList, Bool.false_eq_true]
-      cases reg t (fixedPrefixPath s.root) .dispatch with
-      | error e => rfl
-      | ok t' =>
-        simp only
-        cases reg t' (fixedPrefixPath s.root ++ ['/']) .dispatch <;> rfl
+    · by_cases h4 : fixedPrefixPath s.root ∈ mapped registered
+      · simp only [h3, h4, decide_true, if_true, Bool.not_true, Bool.false_and, Bool.false_eq_true, if_false,
+          List.filter_cons, List.filter_nil, regList]
+      · simp only [h3, h4, decide_false, if_true, if_false, Bool.not_true, Bool.false_and, Bool.false_eq_true,
+          List.filter_cons, List.filter_nil, Bool.not_false, regList]
+        cases reg t (fixedPrefixPath s.root) .dispatch <;> rfl
+    · by_cases h4 : fixedPrefixPath s.root ∈ mapped registered
+      · by_cases h5 : fixedPrefixPath s.root ++ ['/'] ∈ mapped registered
+        · simp only [h3, h4, h5, decide_true, if_true, if_false, Bool.not_true, Bool.not_false, Bool.and_false,
+            Bool.false_eq_true, List.filter_cons, List.filter_nil, regList]
+        · simp only [h3, h4, h5, decide_true, decide_false, if_true, if_false, Bool.not_true, Bool.not_false,
+            Bool.and_self, Bool.false_eq_true, List.filter_cons, List.filter_nil, regList]
+          cases reg t (fixedPrefixPath s.root ++ ['/']) .dispatch <;> rfl
+      · by_cases h5 : fixedPrefixPath s.root ++ ['/'] ∈ mapped registered
+        · simp only [h3, h4, h5, decide_true, decide_false, if_true, if_false, Bool.not_true, Bool.not_false,
+            Bool.and_false, Bool.false_eq_true, List.filter_cons, List.filter_nil, regList]
+          cases reg t (fixedPrefixPath s.root) .dispatch <;> rfl
+        · simp only [h3, h4, h5, decide_false, if_true, if_false, Bool.not_false, Bool.and_self, Bool.false_eq_true,
+            List.filter_cons, List.filter_nil, regList]
+          cases reg t (fixedPrefixPath s.root) .dispatch with
+          | error e => rfl
+          | ok t' =>
+            simp only
+            cases reg t' (fixedPrefixPath s.root ++ ['/']) .dispatch <;> rfl
 
 /-! ### sequences of services -/
 
 theorem patsFrom_true (rs : List Str) : Spec.patsFrom rs true = [] := by
   cases rs <;> simp [Spec.patsFrom]
+
+theorem regFrom_true (rs seen : List Str) : Spec.regFrom rs seen true = [] := by
+  cases rs <;> simp [Spec.regFrom]
 
 theorem flagFrom_true (rs : List Str) : Spec.flagFrom rs true = true := by
   cases rs <;> simp [Spec.flagFrom]
@@ -212,6 +316,18 @@ theorem patsFrom_append (rs : List Str) (r : Str) (b : Bool) :
     · simp only [List.cons_append, Spec.patsFrom, Spec.flagFrom, Bool.false_eq_true, if_false, ih, List.append_assoc]
     · simp [Spec.patsFrom, Spec.flagFrom]
 
+/-- one more service at the end registers what the services before it did not map -/
+theorem regFrom_append (rs : List Str) (r : Str) (seen : List Str) (b : Bool) :
+    Spec.regFrom (rs ++ [r]) seen b = Spec.regFrom rs seen b ++
+      (if Spec.flagFrom rs b then [] else Spec.newPatterns (seen ++ mappedAll rs) r) := by
+  induction rs generalizing seen b with
+  | nil => cases b <;> simp [Spec.regFrom, Spec.flagFrom, mappedAll_nil]
+  | cons x xs ih =>
+    cases b
+    · simp only [List.cons_append, Spec.regFrom, Spec.flagFrom, Bool.false_eq_true, if_false, ih, List.append_assoc,
+        mappedAll_cons]
+    · simp [Spec.regFrom, Spec.flagFrom]
+
 theorem flagFrom_append (rs : List Str) (r : Str) (b : Bool) :
     Spec.flagFrom (rs ++ [r]) b = (if Spec.flagFrom rs b then true else Spec.isRootPattern r) := by
   induction rs generalizing b with
@@ -221,42 +337,161 @@ theorem flagFrom_append (rs : List Str) (r : Str) (b : Bool) :
     · simp only [List.cons_append, Spec.flagFrom, Bool.false_eq_true, if_false, ih]
     · simp [Spec.flagFrom]
 
+/-- while no service landed on `/`, none of them is one that would -/
+theorem flagFrom_false_cons {r : Str} {rs : List Str} (h : Spec.flagFrom (r :: rs) false = false) :
+    Spec.isRootPattern r = false ∧ Spec.flagFrom rs false = false := by
+  simp only [Spec.flagFrom, Bool.false_eq_true, if_false] at h
+  cases hr : Spec.isRootPattern r with
+  | false => rw [hr] at h; exact ⟨rfl, h⟩
+  | true => rw [hr, flagFrom_true] at h; cases h
+
+theorem root_not_mem_mappedAll {rs : List Str} (h : Spec.flagFrom rs false = false) : ['/'] ∉ mappedAll rs := by
+  induction rs with
+  | nil => simp [mappedAll_nil]
+  | cons r rs ih =>
+    obtain ⟨h1, h2⟩ := flagFrom_false_cons h
+    rw [mappedAll_cons, List.mem_append, not_or]
+    exact ⟨root_not_mem_mappedOf h1, ih h2⟩
+
+/-- whatever is registered for a service is mapped by it -/
+theorem regFrom_sub_mappedAll (rs seen : List Str) (b : Bool) : ∀ p ∈ Spec.regFrom rs seen b, p ∈ mappedAll rs := by
+  induction rs generalizing seen b with
+  | nil => intro p hp; simp [Spec.regFrom] at hp
+  | cons r rs ih =>
+    intro p hp
+    cases b with
+    | true => simp [Spec.regFrom] at hp
+    | false =>
+      simp only [Spec.regFrom, Bool.false_eq_true, if_false, List.mem_append] at hp
+      rw [mappedAll_cons, List.mem_append]
+      rcases hp with hp | hp
+      · exact Or.inl (regPatterns_sub_mappedOf p (newPatterns_sub p hp))
+      · exact Or.inr (ih _ _ p hp)
+
+theorem regFrom_ne_nil (rs seen : List Str) (b : Bool) : ∀ p ∈ Spec.regFrom rs seen b, p ≠ [] := by
+  induction rs generalizing seen b with
+  | nil => intro p hp; simp [Spec.regFrom] at hp
+  | cons r rs ih =>
+    intro p hp
+    cases b with
+    | true => simp [Spec.regFrom] at hp
+    | false =>
+      simp only [Spec.regFrom, Bool.false_eq_true, if_false, List.mem_append] at hp
+      rcases hp with hp | hp
+      · exact newPatterns_ne_nil p hp
+      · exact ih _ _ p hp
+
+/-- THE point of the repair 093fa53: the registered patterns are pairwise different and differ from
+    everything mapped before, whatever the root paths are -/
+theorem regFrom_nodup (rs seen : List Str) (hs : ['/'] ∉ seen) :
+    (Spec.regFrom rs seen false).Nodup ∧ ∀ p ∈ Spec.regFrom rs seen false, p ∉ seen := by
+  induction rs generalizing seen with
+  | nil => simp [Spec.regFrom]
+  | cons r rs ih =>
+    simp only [Spec.regFrom, Bool.false_eq_true, if_false]
+    cases hr : Spec.isRootPattern r with
+    | true =>
+      simp only [regFrom_true, List.append_nil, Spec.newPatterns, hr, if_true]
+      refine ⟨by simp, ?_⟩
+      intro p hp
+      simp only [List.mem_singleton] at hp
+      subst hp; exact hs
+    | false =>
+      have hs' : ['/'] ∉ seen ++ mappedOf r := by
+        rw [List.mem_append, not_or]
+        exact ⟨hs, root_not_mem_mappedOf hr⟩
+      obtain ⟨n1, d1⟩ := ih (seen ++ mappedOf r) hs'
+      refine ⟨?_, ?_⟩
+      · rw [List.nodup_append]
+        refine ⟨newPatterns_nodup _ _, n1, ?_⟩
+        intro a ha b hb hab
+        subst hab
+        apply d1 a hb
+        rw [List.mem_append]
+        exact Or.inr (regPatterns_sub_mappedOf a (newPatterns_sub a ha))
+      · intro p hp
+        rcases List.mem_append.mp hp with hp | hp
+        · exact newPatterns_not_seen hr p hp
+        · intro hm
+          exact d1 p hp (List.mem_append.mpr (Or.inl hm))
+
+theorem regFrom_nodup' (rs : List Str) : (Spec.regFrom rs [] false).Nodup :=
+  (regFrom_nodup rs [] (by simp)).1
+
 /-- registering services in order on a mux, in closed form -/
-def regAll (rs : List Str) (t : Mux.Table) (r : Bool) : Except Panic (Mux.Table × Bool) :=
-  match regList t (Spec.patsFrom rs r) with
+def regAll (rs seen : List Str) (t : Mux.Table) (r : Bool) : Except Panic (Mux.Table × Bool) :=
+  match regList t (Spec.regFrom rs seen r) with
   | .ok t' => .ok (t', Spec.flagFrom rs r)
   | .error e => .error e
 
-theorem regAll_true (rs : List Str) (t : Mux.Table) : regAll rs t true = .ok (t, true) := by
-  simp [regAll, patsFrom_true, flagFrom_true, regList]
+theorem regAll_true (rs seen : List Str) (t : Mux.Table) : regAll rs seen t true = .ok (t, true) := by
+  simp [regAll, regFrom_true, flagFrom_true, regList]
 
-theorem rebuild_eq (all : List Svc) (root : Str) (l : List Svc) (t : Mux.Table) (r : Bool)
-    (hm : ∀ e ∈ l, alreadyMapped all e = false) :
-    rebuild all root l t r = regAll (roots (l.filter (fun each => each.root != root))) t r := by
-  induction l generalizing t r with
-  | nil => cases r <;> simp [rebuild, regAll, roots, Spec.patsFrom, Spec.flagFrom, regList]
+theorem mapped_append (l : List Svc) (s : Svc) : mapped (l ++ [s]) = mapped l ++ mappedOf s.root := by
+  simp [mapped]
+
+/-- the loop of `Remove` in closed form -/
+theorem rebuild_eq (root : Str) (l news : List Svc) (t : Mux.Table) (r : Bool) :
+    rebuild root l news t r = regAll (roots (l.filter (fun each => each.root != root))) (mapped news) t r := by
+  induction l generalizing news t r with
+  | nil => cases r <;> simp [rebuild, regAll, roots, Spec.regFrom, Spec.flagFrom, regList]
   | cons each rest ih =>
-    have hrest : ∀ e ∈ rest, alreadyMapped all e = false := fun e he => hm e (List.mem_cons_of_mem _ he)
     simp only [rebuild]
     by_cases hne : (each.root != root) = true
     · simp only [hne, if_true, List.filter_cons]
       cases r with
       | true =>
         simp only [Bool.not_true, Bool.false_eq_true, if_false]
-        rw [ih t true hrest, regAll_true, regAll_true]
+        rw [ih _ t true, regAll_true, regAll_true]
       | false =>
         simp only [Bool.not_false, if_true]
-        rw [addHandler_eq t (hm each List.mem_cons_self)]
-        simp only [roots, List.map_cons, regAll, Spec.patsFrom, Spec.flagFrom, Bool.false_eq_true, if_false]
+        rw [addHandler_eq news each t]
+        simp only [roots, List.map_cons, regAll, Spec.regFrom, Spec.flagFrom, Bool.false_eq_true, if_false]
         rw [regList_append]
-        cases regList t (Spec.regPatterns each.root) with
+        cases regList t (Spec.newPatterns (mapped news) each.root) with
         | error e => rfl
         | ok t' =>
           simp only
-          rw [ih t' _ hrest]
+          rw [ih _ t' _, mapped_append]
           rfl
     · simp only [hne, if_false, List.filter_cons, Bool.false_eq_true]
-      exact ih t r hrest
+      exact ih news t r
+
+/-! ### when a list of registrations fails -/
+
+/-- pairwise different non-empty patterns fail to register only on a pattern the mux already holds -/
+theorem regList_error {t : Mux.Table} {ps : List Str} {e : Panic} (hr : regList t ps = .error e)
+    (hne : ∀ p ∈ ps, p ≠ []) (hn : ps.Nodup) : ∃ p ∈ ps, p ∈ keys t ∧ e = .mux (.multiple p) := by
+  induction ps generalizing t with
+  | nil => simp [regList] at hr
+  | cons p ps ih =>
+    simp only [regList] at hr
+    cases h1 : reg t p .dispatch with
+    | error e1 =>
+      rw [h1] at hr
+      simp only [Except.error.injEq] at hr
+      subst hr
+      unfold reg Mux.register at h1
+      have hp : p.isEmpty = false := by
+        have := hne p List.mem_cons_self
+        cases p <;> simp_all
+      simp only [hp, Bool.false_eq_true, if_false] at h1
+      by_cases hh : Mux.has t p = true
+      · simp only [hh, if_true, Except.error.injEq] at h1
+        exact ⟨p, List.mem_cons_self, Mux.has_eq_true.mp hh, h1.symm⟩
+      · simp [hh] at h1
+    | ok t1 =>
+      rw [h1] at hr
+      obtain ⟨_, _, rfl⟩ := reg_ok h1
+      have hn' : p ∉ ps ∧ ps.Nodup := by simpa using hn
+      obtain ⟨q, hq, hk, he⟩ := ih hr (fun x hx => hne x (List.mem_cons_of_mem _ hx)) hn'.2
+      refine ⟨q, List.mem_cons_of_mem _ hq, ?_, he⟩
+      rw [keys_append] at hk
+      rcases List.mem_append.mp hk with hk | hk
+      · exact hk
+      · simp only [keys, List.map_cons, List.map_nil, List.mem_singleton] at hk
+        subst hk
+        exact absurd hq hn'.1
 
 end Registry
 end Restful
